@@ -158,6 +158,13 @@ class Closure(V):
         self.fdef, self.env, self.name, self.wrapper = fdef, env, name, wrapper
 
 
+class KwArgs(V):
+    """**kwargs captured at function entry (concrete keys)."""
+
+    def __init__(self, d):
+        self.d = dict(d)
+
+
 class BoundMethod(V):
     def __init__(self, recv, name):
         self.recv, self.name = recv, name
@@ -243,6 +250,7 @@ class State:
         self.ghost = {}
         self.trace = []  # human-readable branch decisions
         self.loop_ctx = []
+        self.args = {}
 
     def fork(self):
         memo = {}
@@ -439,6 +447,9 @@ class Contract:
 
     def havoc(self, ex, st, args):
         pass
+
+    def on_raise(self, ex, st, args, old, exc):
+        return None
 
     def bind(self, ex, recv, args, kwargs, st):
         fdef, _, _ = ex.src.find(self.file, self.qual)
@@ -905,7 +916,7 @@ class Executor:
         f = self.contract.invariants.get(k)
         if f is None:
             return None
-        return f(self, st, self.cargs, self.cold, ghost)
+        return f(self, st, st.args, self.cold, ghost)
 
     def st_While(self, node, st):
         k = self.next_loop_id(node)
@@ -920,10 +931,10 @@ class Executor:
             raise Unsupported("while/else")
         saved_counter = self.loop_counter
         # init
-        self.oblige(st, invf(self, st, self.cargs, self.cold, {}), f"loop{k}.init")
+        self.oblige(st, invf(self, st, st.args, self.cold, {}), f"loop{k}.init")
         # arbitrary iteration
         self.havoc_loop(node.body, st, f"w{k}")
-        st.assume(invf(self, st, self.cargs, self.cold, {}), f"loop{k}:inv")
+        st.assume(invf(self, st, st.args, self.cold, {}), f"loop{k}:inv")
         c = self.ev(node.test, st)
         z = self.truth_z(st, c)
         out = []
@@ -933,7 +944,7 @@ class Executor:
         if feasible(self.axioms + s_body.pc):
             for s2, o in self.exec_block(node.body, s_body):
                 if o.kind in ("normal", "continue"):
-                    self.oblige(s2, invf(self, s2, self.cargs, self.cold, {}), f"loop{k}.preserve")
+                    self.oblige(s2, invf(self, s2, s2.args, self.cold, {}), f"loop{k}.preserve")
                 elif o.kind == "break":
                     out.append((s2, NORMAL))
                 else:
@@ -1046,22 +1057,24 @@ class Executor:
             raise Unsupported(f"for loop #{k} at line {node.lineno} has no invariant in the sidecar contract")
         saved_counter = self.loop_counter
         done0 = empty_set(it.esort)
-        self.oblige(st, invf(self, st, self.cargs, self.cold, {"done": done0, "iter": it.mem}), f"loop{k}.init")
+        self.oblige(st, invf(self, st, st.args, self.cold, {"done": done0, "iter": it.mem}), f"loop{k}.init")
         self.havoc_loop(node.body, st, f"f{k}")
         done = fresh(f"done{k}", set_sort(it.esort))
         st.assume(subset(done, it.mem, it.esort))
-        st.assume(invf(self, st, self.cargs, self.cold, {"done": done, "iter": it.mem}), f"loop{k}:inv")
+        st.assume(invf(self, st, st.args, self.cold, {"done": done, "iter": it.mem}), f"loop{k}:inv")
         out = []
         s_body = st.fork()
         x = fresh(f"x{k}", it.esort)
         s_body.assume(it.mem[x])
+        s_body.ghost[f"done{k}"] = done
+        s_body.ghost[f"cur{k}"] = x
         if it.nodup:
             s_body.assume(z3.Not(done[x]))
         self.assign(node.target, val_of(x), s_body)
         if feasible(self.axioms + s_body.pc):
             for s2, o in self.exec_block(node.body, s_body):
                 if o.kind in ("normal", "continue"):
-                    self.oblige(s2, invf(self, s2, self.cargs, self.cold, {"done": z3.Store(done, x, True), "iter": it.mem}), f"loop{k}.preserve")
+                    self.oblige(s2, invf(self, s2, s2.args, self.cold, {"done": z3.Store(done, x, True), "iter": it.mem}), f"loop{k}.preserve")
                 elif o.kind == "break":
                     s2.ghost[f"break{k}"] = True
                     out.append((s2, NORMAL))
@@ -1145,21 +1158,36 @@ class Executor:
         return self.ev(node.body if t else node.orelse, st)
 
     def ex_BoolOp(self, node, st):
-        vals = []
-        zs = []
+        """short-circuit semantics: operand i is evaluated under the assumption that the previous
+        operands did not decide the result; facts learnt meanwhile are kept, guarded."""
+        vals, zs = [], []
+        is_and = isinstance(node.op, ast.And)
         for e in node.values:
-            v = self.ev(e, st)
+            if zs:
+                guard = z3.And(*zs) if is_and else z3.Not(z3.Or(*zs))
+                mark = len(st.pc)
+                st.pc.append(guard)
+                try:
+                    v = self.ev(e, st)
+                    z = self.truth_z(st, v)
+                finally:
+                    added = st.pc[mark + 1:]
+                    del st.pc[mark:]
+                    st.pc.extend(z3.Implies(guard, a) for a in added)
+            else:
+                v = self.ev(e, st)
+                z = self.truth_z(st, v)
             vals.append(v)
-            zs.append(self.truth_z(st, v))
+            zs.append(z)
         allbool = all(isinstance(v, Scalar) and v.z.sort() == B for v in vals)
         if allbool:
-            return Scalar(z3.And(*zs) if isinstance(node.op, ast.And) else z3.Or(*zs))
+            return Scalar(z3.And(*zs) if is_and else z3.Or(*zs))
         # python value semantics: decide sequentially
         for v in vals[:-1]:
             t = self.truth(st, v)
-            if isinstance(node.op, ast.And) and not t:
+            if is_and and not t:
                 return v
-            if isinstance(node.op, ast.Or) and t:
+            if not is_and and t:
                 return v
         return vals[-1]
 
@@ -1418,7 +1446,15 @@ class Executor:
                     args.append(self.ev(a, st))
         else:
             args = [self.ev(a, st) for a in node.args]
-        kwargs = {k.arg: self.ev(k.value, st) for k in node.keywords}
+        kwargs = {}
+        for k in node.keywords:
+            if k.arg is None:
+                kv = self.ev(k.value, st)
+                if not isinstance(kv, KwArgs):
+                    raise Unsupported("** of a non-captured mapping")
+                kwargs.update(kv.d)
+            else:
+                kwargs[k.arg] = self.ev(k.value, st)
         return self.call_value(f, args, kwargs, st, node)
 
     def call_value(self, f, args, kwargs, st, node):
@@ -1551,9 +1587,14 @@ class Executor:
             vals[a.vararg.arg] = TupleV(args[len(names):])
         elif len(args) > len(names):
             raise Unsupported("too many arguments")
-        for k in a.kwonlyargs:
+        for i, k in enumerate(a.kwonlyargs):
             if k.arg in kwargs:
                 vals[k.arg] = kwargs[k.arg]
+            elif a.kw_defaults[i] is not None:
+                vals[k.arg] = self.ev(a.kw_defaults[i], st)
+        if a.kwarg:
+            extra = {k: v for k, v in kwargs.items() if k not in names and k not in [x.arg for x in a.kwonlyargs]}
+            vals[a.kwarg.arg] = KwArgs(extra)
         env.update(vals)
 
     # ------------------------------------------------------------------ builtins
@@ -1758,6 +1799,7 @@ class Executor:
             self.npaths = 0
             st = State()
             self.cargs = args
+            st.args = args
             pre = contract.pre(self, st, args)
             st.assume(pre, "requires")
             # vacuity guards: requires satisfiable; `ensures False` must be refuted
@@ -1774,11 +1816,15 @@ class Executor:
                 if o.kind in ("return", "normal"):
                     res = o.value if o.kind == "return" else NONE
                     n_ret += 1
-                    self.oblige(s, z3.Not(any_exc), "no-spurious-return") if exc else None
-                    self.oblige(s, contract.post(self, s, args, self.cold, res), "post")
+                    if exc:
+                        self.oblige(s, z3.Not(any_exc), "no-spurious-return")
+                    self.oblige(s, contract.post(self, s, s.args, self.cold, res), "post")
                 elif o.kind == "raise":
                     cond = exc.get(o.exc)
                     self.oblige(s, cond if cond is not None else z3.BoolVal(False), f"raises.{o.exc}")
+                    fr = contract.on_raise(self, s, s.args, self.cold, o.exc)
+                    if fr is not None:
+                        self.oblige(s, fr, f"raises.{o.exc}.state-unchanged")
                 else:
                     raise Unsupported(f"function ends with {o.kind}")
             info["variants"].append({"label": label, "paths": len(outs), "returns": n_ret})
